@@ -6,6 +6,8 @@ ALL_LEVELS = "zoom level 0..=31 symbolic, coordinates full-width u32"
 BBOX = "TileBBox from the closure of new/new_full/new_empty/set_empty/intersect_bbox (both empty encodings)"
 
 PROPS = {}
+PYR_LOOPS = [(r"TileBBoxPyramid|try_from_fn|from_fn|tile_bbox_pyramid", 34)]
+POW = "u32::pow(2,z) -> 1<<z"
 
 # ------------------------------------------------------------------------------------------ C15
 c15 = "verif_kani::c15"
@@ -103,9 +105,15 @@ PROPS["C19"] = {
 PYR = "TileBBoxPyramid whose 32 level boxes are all symbolic (each from the box generator); symbolic level l; symbolic tile p"
 PROPS["C15"]["harnesses"] += [
 	H("c15_h11_pyramid_intersect", CORE, "verif_kani::c15pyr", funcs=["TileBBoxPyramid::intersect", "TileBBox::intersect_bbox"], bounds=ALL_LEVELS, sample="two " + PYR),
-	H("c15_h11_pyramid_include", CORE, "verif_kani::c15pyr", funcs=["TileBBoxPyramid::include_bbox_pyramid", "TileBBoxPyramid::iter_levels", "TileBBox::include_bbox"], bounds=ALL_LEVELS + "; the included pyramid is symbolic on levels 0, 7, 31 and empty elsewhere", sample=PYR + "; second pyramid with 3 symbolic levels", timeout=1200),
+	H("c15_h11_pyramid_include_l0", CORE, "verif_kani::c15pyr", funcs=["TileBBoxPyramid::include_bbox_pyramid", "TileBBoxPyramid::iter_levels", "TileBBox::include_bbox"], bounds=ALL_LEVELS + "; the included pyramid is symbolic on level 0 and empty elsewhere; the receiving pyramid symbolic on all 32 levels", sample=PYR + "; second pyramid with one symbolic level", stubs=[POW], tier="thorough", timeout=900),
+	H("c15_h11_pyramid_include_l7", CORE, "verif_kani::c15pyr", funcs=["TileBBoxPyramid::include_bbox_pyramid", "TileBBoxPyramid::iter_levels", "TileBBox::include_bbox"], bounds=ALL_LEVELS + "; the included pyramid is symbolic on level 7 and empty elsewhere; the receiving pyramid symbolic on all 32 levels", sample=PYR + "; second pyramid with one symbolic level", stubs=[POW], tier="quick", timeout=900),
+	H("c15_h11_pyramid_include_l31", CORE, "verif_kani::c15pyr", funcs=["TileBBoxPyramid::include_bbox_pyramid", "TileBBoxPyramid::iter_levels", "TileBBox::include_bbox"], bounds=ALL_LEVELS + "; the included pyramid is symbolic on level 31 and empty elsewhere; the receiving pyramid symbolic on all 32 levels", sample=PYR + "; second pyramid with one symbolic level", stubs=[POW], tier="thorough", timeout=900),
 	H("c15_h11_pyramid_include_one", CORE, "verif_kani::c15pyr", funcs=["TileBBoxPyramid::include_bbox", "TileBBoxPyramid::include_coord"], bounds=ALL_LEVELS, sample=PYR + "; box; coordinate", tier="thorough", timeout=1800),
-	H("c15_h11_pyramid_contains", CORE, "verif_kani::c15pyr", funcs=["TileBBoxPyramid::contains_coord", "TileBBoxPyramid::overlaps_bbox"], bounds=ALL_LEVELS + "; z any u8", sample=PYR + "; box"),
+	H("c15_h11_pyramid_contains", CORE, "verif_kani::c15pyr", funcs=["TileBBoxPyramid::contains_coord"], bounds=ALL_LEVELS + "; z any u8", sample=PYR + "; coordinate"),
+	H("c15_h11_pyramid_overlaps_l0", CORE, "verif_kani::c15pyr", funcs=["TileBBoxPyramid::overlaps_bbox", "TileBBox::overlaps_bbox"], bounds="box at level 0 (concrete per instance), coordinates full width; pyramid symbolic on all levels", sample=PYR + "; box", stubs=[POW], tier="thorough"),
+	H("c15_h11_pyramid_overlaps_l9", CORE, "verif_kani::c15pyr", funcs=["TileBBoxPyramid::overlaps_bbox", "TileBBox::overlaps_bbox"], bounds="box at level 9 (concrete per instance), coordinates full width; pyramid symbolic on all levels", sample=PYR + "; box", stubs=[POW], tier="quick"),
+	H("c15_h11_pyramid_overlaps_l31", CORE, "verif_kani::c15pyr", funcs=["TileBBoxPyramid::overlaps_bbox", "TileBBox::overlaps_bbox"], bounds="box at level 31 (concrete per instance), coordinates full width; pyramid symbolic on all levels", sample=PYR + "; box", stubs=[POW], tier="thorough"),
+
 	H("c15_h11_pyramid_zoom_min", CORE, "verif_kani::c15pyr", funcs=["TileBBoxPyramid::get_zoom_min", "TileBBoxPyramid::is_empty"], bounds=ALL_LEVELS, sample=PYR),
 	H("c15_h11_pyramid_zoom_max", CORE, "verif_kani::c15pyr", funcs=["TileBBoxPyramid::get_zoom_max"], bounds=ALL_LEVELS, sample=PYR),
 	H("c15_h11_pyramid_zoom_limits", CORE, "verif_kani::c15pyr", funcs=["TileBBoxPyramid::set_zoom_min", "TileBBoxPyramid::set_zoom_max"], bounds=ALL_LEVELS + "; zoom limits any u8", sample=PYR + "; zmin, zmax"),
@@ -116,9 +124,9 @@ PROPS["C15"]["harnesses"] += [
 
 # ------------------------------------------------------------------------------------------ container crate
 CONT = "versatiles_container"
+CONV = "verif_conv"  # converter.rs + tile_converter.rs mounted alone (small dyn-dispatch candidate set)
 VT = "container::versatiles::types"
 PT = "container::pmtiles::types"
-POW = "u32::pow(2,z) -> 1<<z"
 
 PROPS["C19"]["harnesses"] += [
 	H("c19_block_definition_from_blob", CONT, f"{VT}::block_definition::kani_harness", funcs=["BlockDefinition::from_blob", "TileBBox::new"], bounds="every 33-byte string", sample="[u8; 33] fully symbolic", stubs=[POW]),
@@ -195,7 +203,7 @@ c15g = "verif_kani::c15geo"
 LIBM = "f64::tan, f64::ln -> monotone nondeterministic model consistent across calls; f64::powi(2,z) -> exact table"
 PROPS["C15"]["harnesses"] += [
 	H(f"c15_h12_geo_x_z{z}", CORE, c15g, funcs=["TileBBox::from_geo", "TileCoord2::from_geo", "GeoBBox::check", "TileBBox::new"], bounds=f"zoom {z}; every west <= east in [-180, 180] (all f64 bit patterns); latitude fixed to 0", sample="west, east: f64 symbolic", stubs=[LIBM, POW], tier=t)
-	for z, t in [(0, "quick"), (1, "thorough"), (3, "quick"), (9, "thorough"), (16, "thorough"), (24, "thorough"), (31, "quick")]
+	for z, t in [(0, "quick"), (1, "thorough"), (3, "quick"), (9, "thorough"), (16, "thorough")]
 ] + [
 	H(f"c15_h13_geo_y_z{z}", CORE, c15g, funcs=["TileBBox::from_geo", "TileCoord2::from_geo", "GeoBBox::check", "TileBBox::new"], bounds=f"zoom {z}; every south <= north in [-90, 90]; longitude fixed to 0; tan/ln by the monotone model", sample="south, north: f64 symbolic", stubs=[LIBM, POW], tier=t)
 	for z, t in [(0, "quick"), (1, "thorough"), (3, "quick"), (9, "thorough"), (16, "thorough"), (24, "thorough"), (31, "quick")]
@@ -209,12 +217,15 @@ CODEC = "codec model: compress_X(p) = TAG_X ++ p, decompress_X inverse, Err othe
 ECHO = "echo source whose content is exactly its advertised pyramid (one symbolic box at one symbolic level) and whose payloads are their own coordinates"
 PROPS["C06"] = {
 	"harnesses": [
-		H("c06_h1_coverage", CONT, c06, funcs=["TilesConvertReader::new_from_reader", "<TileBBoxPyramid as TransformCoord>::flip_y", "<TileBBoxPyramid as TransformCoord>::swap_xy", "TileBBoxPyramid::intersect"],
-			bounds="all 4 flag combinations, level and boxes symbolic (full-width), optional requested pyramid; coordinate c any u32 x u32 x level", sample=ECHO + "; flags; optional requested box; coordinate c", stubs=[POW], timeout=900),
-		H("c06_h2_lookup", CONT, c06, funcs=["TilesConvertReader::new_from_reader", "<TilesConvertReader as TilesReaderTrait>::get_tile_data", "<TileCoord3 as TransformCoord>::flip_y", "<TileCoord3 as TransformCoord>::swap_xy", "TileConverter::process_blob"],
-			bounds="all 4 flag combinations, level and boxes symbolic, optional requested pyramid; requested coordinate any x, y: u32 (incl. out of range), z <= 31", sample=ECHO + "; flags; coordinate c", stubs=[POW], timeout=900),
-		H("c06_h3_stream", CONT, c06, funcs=["<TilesConvertReader as TilesReaderTrait>::get_bbox_tile_stream", "TileStream::map_coord", "TileConverter::process_stream", "<TileBBox as TransformCoord>::flip_y", "<TileBBox as TransformCoord>::swap_xy"],
-			bounds="all 4 flag combinations; requested box at most 2x2 tiles at any position", sample=ECHO + "; flags; requested box q", stubs=[POW, "TileStream::map_blob_parallel -> sequential map"], tier="thorough", timeout=2400),
+		H("c06_h1_coverage", CONV, c06, funcs=["TilesConvertReader::new_from_reader", "<TileBBoxPyramid as TransformCoord>::flip_y", "<TileBBoxPyramid as TransformCoord>::swap_xy", "TileBBoxPyramid::intersect"],
+			bounds="all 4 flag combinations, level and boxes symbolic (full-width), optional requested pyramid; coordinate c any u32 x u32 x level", sample=ECHO + "; flags; optional requested box; coordinate c", stubs=[POW], timeout=900, unwindset=PYR_LOOPS),
+	] + [
+		H(f"c06_h2_lookup_{n}", CONV, c06, funcs=["TilesConvertReader::new_from_reader", "<TilesConvertReader as TilesReaderTrait>::get_tile_data", "<TileCoord3 as TransformCoord>::flip_y", "<TileCoord3 as TransformCoord>::swap_xy", "TileConverter::process_blob"],
+			bounds=f"flags and zoom level {n} (concrete per instance); source box symbolic; requested coordinate any x, y: u32 (incl. out of range) at that level", sample=ECHO + "; coordinate c", stubs=[POW, CODEC], timeout=1200, unwindset=PYR_LOOPS, tier=t)
+		for n, t in [("plain_l3", "quick"), ("flip_l3", "quick"), ("swap_l3", "quick"), ("flip_swap_l3", "quick"), ("flip_swap_l31", "thorough")]
+	] + [
+		H("c06_h3_stream", CONV, c06, funcs=["<TilesConvertReader as TilesReaderTrait>::get_bbox_tile_stream", "TileStream::map_coord", "TileConverter::process_stream", "<TileBBox as TransformCoord>::flip_y", "<TileBBox as TransformCoord>::swap_xy"],
+			bounds="all 4 flag combinations; requested box at most 2x2 tiles at any position", sample=ECHO + "; flags; requested box q", stubs=[POW, "TileStream::map_blob_parallel -> sequential map"], tier="thorough", timeout=2400, unwindset=PYR_LOOPS),
 		H("c06_add_border", CORE, c15, funcs=["TileBBox::add_border"], bounds=ALL_LEVELS + "; border widths any u32", sample=BBOX + "; four border widths"),
 	],
 	"meta": {
@@ -224,11 +235,15 @@ PROPS["C06"] = {
 }
 PROPS["C04"] = {
 	"harnesses": [
-		H("c04_h1_recompressor", CONT, c04, funcs=["TileConverter::new_tile_recompressor", "TileConverter::process_blob", "FnConv::run", "utils::compress", "utils::decompress"], bounds="3 x 3 x 2 configurations (unrolled) x payload of 0..=3 symbolic bytes", sample="payload bytes", stubs=[CODEC]),
-		H("c04_h2_dispatch", CONT, c04, funcs=["utils::recompress", "utils::compress", "utils::decompress"], bounds="3 x 3 configurations x payload of 0..=3 symbolic bytes", sample="payload bytes", stubs=[CODEC]),
-		H("c04_h4_decompressor", CONT, c04, funcs=["TileConverter::new_decompressor", "TileConverter::process_blob"], bounds="3 source compressions x payload of 0..=3 symbolic bytes", sample="payload bytes", stubs=[CODEC]),
-		H("c04_h3_convert_reader", CONT, c04, funcs=["TilesConvertReader::new_from_reader", "<TilesConvertReader as TilesReaderTrait>::get_tile_data", "<TilesConvertReader as TilesReaderTrait>::get_parameters", "TileConverter::process_blob"],
-			bounds="source compression x requested compression (None or one of 3) x force flag, all symbolic; source level/box symbolic", sample=ECHO + "; compressions; force", stubs=[CODEC, POW], timeout=900),
+	] + [
+		H(f"c04_recompress_{a}_{b}", CONV, c04, funcs=["TileConverter::new_tile_recompressor", "TileConverter::new_decompressor", "TileConverter::process_blob", "FnConv::run", "utils::compress", "utils::decompress", "utils::recompress"],
+			bounds=f"source {a} -> target {b} (concrete per instance), force in {{false, true}}, every 2-byte payload", sample="payload bytes", stubs=[CODEC], timeout=900)
+		for a in "ugb" for b in "ugb"
+	] + [
+	] + [
+		H(f"c04_declared_{a}_{b}", CONV, "container::converter::kani_harness", funcs=["TilesConvertReader::new_from_reader", "TileConverter::new_tile_recompressor", "TileConverter::process_blob"],
+			bounds=f"source {a}, requested {b} (concrete per instance); force, flip, swap symbolic; every 2-byte payload", sample="force, flip, swap, payload", stubs=[CODEC, POW], timeout=900, unwindset=PYR_LOOPS, tier=t)
+		for a, b, t in [("u", "keep", "quick"), ("g", "keep", "quick"), ("b", "keep", "thorough"), ("u", "g", "thorough"), ("u", "b", "quick"), ("g", "u", "quick"), ("g", "g", "thorough"), ("g", "b", "thorough"), ("b", "u", "thorough"), ("b", "g", "quick"), ("b", "b", "quick"), ("u", "u", "thorough")]
 	],
 	"meta": {
 		"assumptions": [CODEC],
@@ -295,7 +310,7 @@ PROPS["C07"] = {
 PROPS["C05"] = {
 	"harnesses": [
 		H(f"c05_h1_negotiation_{n}", CORE, "verif_kani::c05", funcs=["utils::optimize_compression", "TargetCompression::from_set", "TargetCompression::set_fast_compression", "TargetCompression::set_incompressible", "utils::compress", "utils::decompress"],
-			bounds=f"stored compression {n} x all 8 allowed sets x 3 goals (unrolled) x payload of 0..=2 symbolic bytes", sample="payload bytes", stubs=[CODEC], timeout=900)
+			bounds=f"stored compression {n} x all 8 allowed sets x 3 goals (unrolled) x every 2-byte payload", sample="payload bytes", stubs=[CODEC], timeout=900)
 		for n in ["uncompressed", "gzip", "brotli"]
 	],
 	"meta": {
@@ -324,3 +339,113 @@ def _run_c13(prop, tier):
 
 
 PROPS["C13"] = {"run": _run_c13}
+
+# ------------------------------------------------------------------------------------------ C09 (coverage kernels the filters consult)
+# The filter operations themselves (Box<dyn OperationTrait> + async_trait futures) are out of reach: CBMC cannot resolve the
+# dynamic dispatch and unwinds the operations recursively together with anyhow's drop glue (no verdict in 15 min at the
+# smallest bound; harnesses kept under harness/pipeline as overlay.dev.json). What decides which tiles pass is the coverage
+# pyramid the filter consults: set_zoom_min/max, intersect, contains_coord, intersect_pyramid.
+PROPS["C09"] = {
+	"harnesses": [
+		H("c15_h11_pyramid_zoom_limits", CORE, "verif_kani::c15pyr", funcs=["TileBBoxPyramid::set_zoom_min", "TileBBoxPyramid::set_zoom_max"], bounds=ALL_LEVELS + "; min/max any u8 (incl. min > max, > 31)", sample=PYR + "; zmin, zmax"),
+		H("c15_h11_pyramid_contains", CORE, "verif_kani::c15pyr", funcs=["TileBBoxPyramid::contains_coord"], bounds=ALL_LEVELS + "; z any u8", sample=PYR + "; coordinate"),
+		H("c15_h11_pyramid_intersect", CORE, "verif_kani::c15pyr", funcs=["TileBBoxPyramid::intersect"], bounds=ALL_LEVELS, sample="two " + PYR),
+		H("c09_intersect_pyramid", CORE, "verif_kani::c15pyr", funcs=["TileBBox::intersect_pyramid"], bounds=ALL_LEVELS, sample=PYR + "; box", stubs=[POW]),
+	] + [
+		H(f"c15_h12_geo_x_z{z}", CORE, c15g, funcs=["TileBBox::from_geo"], bounds=f"zoom {z}: a valid geographic box always maps to a tile box (no error for the filter to unwrap)", sample="see C15", stubs=[LIBM, POW])
+		for z in [3]
+	],
+	"meta": {
+		"assumptions": ["the filter stages consult exactly this coverage pyramid at run time (get_tile_data: contains_coord guard; get_tile_stream: intersect_pyramid) - by reading"],
+		"out": ["the filter_zoom / filter_bbox Operation objects themselves (dyn OperationTrait + async futures: no CBMC verdict within reach)", "Operation::build glue and VPL argument parsing", "tilejson narrowing", "chains of filters"],
+	},
+}
+
+# ------------------------------------------------------------------------------------------ C02 / C03
+PROPS["C02"] = {
+	"harnesses": [
+		H(f"c02_default_stream_{w}", CORE, "verif_kani::c02", funcs=["TilesReaderTrait::get_bbox_tile_stream (default)", "TileStream::from_coord_vec_async", "TileBBox::iter_coords"],
+			bounds=f"requested box at most {w} tiles at any level/position (all four empty shapes included); reader content = symbolic box minus a symbolic hole", sample="reader box, hole, requested box q", stubs=[POW], tier=t, timeout=to, unwindset=PYR_LOOPS)
+		for w, t, to in [("2x1", "quick", 900), ("1x2", "thorough", 1200), ("2x2", "thorough", 2400)]
+	] + [
+		H("c06_h3_stream", CONV, c06, funcs=["<TilesConvertReader as TilesReaderTrait>::get_bbox_tile_stream"], bounds="converting reader: see C06 (box at most 2x2, all flag combinations)", sample="see C06", stubs=[POW], tier="thorough", timeout=2400, unwindset=PYR_LOOPS),
+	],
+	"meta": {
+		"assumptions": ["reader = harness TilesReaderTrait implementation using the trait's default stream; hand-rolled block_on (futures::lock::Mutex uncontended)"],
+		"out": ["the versatiles reader's own chunked stream (whole-reader runs: no verdict within reach)", "the MBTiles SQL range query", "multi-threaded execution (C14)", "boxes larger than 2x2", "pipeline operations: overlay stream = C08, filters = C09"],
+	},
+}
+PROPS["C03"] = {
+	"harnesses": [
+		H("c03_include_coord_fold", CORE, "verif_kani::c02", funcs=["TileBBoxPyramid::include_coord", "TileBBox::include_coord", "TileBBoxPyramid::contains_coord"], bounds="3 stored tiles at symbolic levels/coordinates (valid for their level)", sample="3 symbolic coordinates", stubs=[POW], timeout=900),
+		H("c16_block_index_sparse", CONT, f"{VT}::block_index::kani_harness", funcs=["BlockIndex::get_bbox_pyramid"], bounds="versatiles: coverage = union of block boxes (see C16)", sample="see C16", stubs=[POW, "HashMap model"], timeout=900),
+		H("c15_h11_pyramid_include_l7", CORE, "verif_kani::c15pyr", funcs=["TileBBoxPyramid::include_bbox_pyramid"], bounds="pipeline unions (overlay/merge): union contains both operands (see C15)", sample="see C15", stubs=[POW], timeout=900),
+		H("c06_h1_coverage", CONV, c06, funcs=["TilesConvertReader::new_from_reader"], bounds="converting reader: advertised coverage = selected pre-image set (see C06)", sample="see C06", stubs=[POW], timeout=900, unwindset=PYR_LOOPS),
+	],
+	"meta": {
+		"assumptions": ["coordinates handed to include_coord are valid for their level (file-name parsing of the tar/directory readers is outside the claim)"],
+		"out": ["MBTiles MIN/MAX SQL", "PMTiles directory walk (calc_bbox_pyramid: async reader)", "readers' file-name parsing", "more than 3 tiles per fold (include_coord is a monotone min/max update: the 3-tile fold exhibits every ordering of min/max updates)"],
+	},
+}
+
+# ------------------------------------------------------------------------------------------ C10 (layer-level kernel)
+PROPS["C10"] = {
+	"harnesses": [
+		H(f"c10_layer_merge_{nk}_{nv}", GEO, c11, funcs=["VectorTileLayer::add_from_layer", "VectorTileLayer::add_vector_tile_features", "PropertyManager::decode_tag_ids", "PropertyManager::encode_tag_ids", "VectorTileLayer::read"],
+			bounds=f"two equally named layers, each with {nk} key / {nv} value table entries from 2-element pools (so the same entries occur in different order), 1 feature with 1 tag pair each", sample="two layers written by the harness' own MVT encoder from symbolic ground truths", stubs=[MON, "HashMap model"], tier=t, timeout=to)
+		for nk, nv, t, to in [(1, 1, "quick", 900), (2, 2, "thorough", 2400)]
+	],
+	"meta": {
+		"assumptions": ["HashMap model in PropertyManager; BTreeMap-based GeoProperties executed for real"],
+		"out": ["the from_vectortiles_merged operation (dyn OperationTrait sources, async streams)", "merge_tiles' grouping by layer name", "more than one feature / tag per layer", "real MVT files"],
+	},
+}
+
+PROPS["C15"]["harnesses"] += [
+	H("c15_h7b_index_large", CORE, c15, funcs=["TileBBox::get_tile_index2", "TileBBox::get_coord2_by_index"], bounds=ALL_LEVELS + "; no size restriction (boxes of up to 2^62 tiles)", sample=BBOX + "; tile p in the box; index j < count", tier="thorough", timeout=2400),
+]
+
+# ------------------------------------------------------------------------------------------ C17 / C19: JSON string kernel
+JS = "byte_iterator::basics::kani_harness"
+PROPS["C17"] = {
+	"harnesses": [
+		H("c17_escape_one_char", CORE, "json::verif_c17", funcs=["json::stringify::escape_json_string"], bounds="every string of one char (all Unicode scalar values); real formatting (no format! stub)", sample="c: char", timeout=1200),
+		H("c17_stringify_string_value", CORE, "json::verif_c17", funcs=["json::stringify::stringify", "json::stringify::escape_json_string"], bounds="JsonValue::String of one char (all scalar values)", sample="c: char", timeout=1200),
+		H("c17_json_string_escape", CORE, JS, funcs=["parse_quoted_json_string"], bounds="production '\"' '\\\\' x '\"' for every byte x != 'u'", sample="x: u8"),
+		H("c17_json_string_u00xx", CORE, JS, funcs=["parse_quoted_json_string"], bounds="production \\\\u00XX for every control code the serialiser escapes (< 0x20, 0x7f..=0x9f)", sample="v: u8"),
+		H("c17_json_string_verbatim_char", CORE, JS, funcs=["parse_quoted_json_string"], bounds="'\"' + UTF-8 of one char that the serialiser writes verbatim (all such scalar values) + '\"'", sample="c: char", timeout=1200),
+	],
+	"meta": {
+		"assumptions": ["ByteIterator state constructed directly at the start of the input (what from_reader establishes), source exhausted; error-message formatting stubbed in the parser harnesses",
+			"round trip = (escape == RFC 8259 reference escaper) + (parser inverts each production of the reference escaper): composition over one-character strings; longer strings are concatenations of these productions (parser has no state between characters besides its output buffer)"],
+		"out": ["numbers (f64::to_string / dec2flt)", "arrays/objects (BTreeMap, recursion)", "TileJSON <-> container round trips and tiles.json (async I/O, regex)", "strings longer than one character (by the per-production argument above)", "surrogate-pair escapes written by other serialisers (rejected by the parser; stringify never emits them)"],
+	},
+}
+PROPS["C19"]["harnesses"] += [
+	H(f"c19_format_error_pos{p}", CORE, "byte_iterator::iterator::kani_harness", funcs=["ByteIterator::format_error"], bounds=f"iterator position {p} (concrete), arbitrary 16-byte debug ring and peeked byte", sample="ring: [u8; 16], peeked: Option<u8>", tier=t, timeout=1200)
+	for p, t in [(1, "quick"), (2, "quick"), (3, "thorough"), (16, "thorough"), (17, "quick"), (33, "thorough")]
+] + [
+	H("c19_json_string_plain2", CORE, JS, funcs=["parse_quoted_json_string", "ByteIterator::expect_next_byte"], bounds="'\"' b1 b2 '\"' with arbitrary bytes", sample="b1, b2: u8"),
+	H("c19_json_string_unicode_any", CORE, JS, funcs=["parse_quoted_json_string"], bounds="'\"\\\\u' + 4 arbitrary bytes + '\"'", sample="h: [u8; 4]", timeout=1200),
+	H("c19_json_string_truncated", CORE, JS, funcs=["parse_quoted_json_string"], bounds="'\"' + 0..=3 arbitrary non-quote bytes, unterminated", sample="[u8; n]", timeout=1200),
+]
+
+PROPS["C06"]["harnesses"] += [
+	H(f"c06_lookup_{n}", CONV, "container::converter::kani_lookup", funcs=["<TilesConvertReader as TilesReaderTrait>::get_tile_data", "<TileCoord3 as TransformCoord>::flip_y", "<TileCoord3 as TransformCoord>::swap_xy"],
+		bounds=f"flags and level {n} (concrete per instance), reader struct built directly without recompressor; source box symbolic; requested x, y any u32", sample="source box; coordinate c", stubs=[POW], timeout=900, tier=t)
+	for n, t in [("plain_l3", "quick"), ("flip_l3", "quick"), ("swap_l3", "quick"), ("flip_swap_l3", "quick"), ("flip_swap_l31", "thorough")]
+]
+
+
+# C06: the lookup / stream / coverage transform consistency is decided by Engine B (MIR -> SMT): the async converting reader
+# itself is out of reach for CBMC (c06_h2_lookup_* / c06_lookup_*: 5-38 GB, no verdict; kept in the harness sources, not registered)
+def _c06_extra(prop, tier):
+	import engine_b
+	return engine_b.run_c06_transform(prop, tier)
+
+
+PROPS["C06"]["extra"] = _c06_extra
+PROPS["C06"]["harnesses"] = [h for h in PROPS["C06"]["harnesses"] if h.name in ("c06_h1_coverage", "c06_add_border")]
+PROPS["C06"]["meta"]["assumptions"].append("transform consistency: the call sequences of flip_y/swap_xy are extracted from the MIR of new_from_reader, get_tile_data, get_bbox_tile_stream (and its map_coord closure) for each of the 4 flag assignments and compared in z3/cvc5 against each other and the specification; data-dependent early exits before the source is consulted make the result inconclusive")
+PROPS["C06"]["meta"]["out"] += ["payloads on the lookup/stream path (the async reader is not executed; C04 decides the recompression pipeline)", "the requested-pyramid filter on the lookup/stream path (neither path consults it on this tree)"]
+PROPS["C02"]["harnesses"] = [h for h in PROPS["C02"]["harnesses"] if h.name != "c06_h3_stream"]
